@@ -335,4 +335,91 @@ Proof.
   - exact NM.
 Qed.
 
+(* ---------- the file header: a silent strict parse of the header attributes does not depend on the state or the mode ---------- *)
+Lemma pfv_indep schema st v st' : parse_file_version true schema st = Val (Ret v st') ->
+  forall s st2, parse_file_version s schema st2 = Val (Ret v st2).
+Proof.
+  unfold parse_file_version. cbv zeta.
+  destruct (negb (bytes_eqb (hd [] (split_on 32 [] schema)) (BS "http://autosar.org/schema/r4.0"))); [discriminate|].
+  match goal with |- context [version_of_filename ?x] => destruct (version_of_filename x) as [v0|] end.
+  - intros [= <- <-] s st2. reflexivity.
+  - intros H. exfalso.
+    repeat match type of H with
+           | (if ?c then _ else _) _ = _ => destruct c
+           end; inv H as u1 s1 E1; exact (oe_strict_ret _ _ _ _ _ _ E1).
+Qed.
+
+Lemma pfh_indep attrs st u st' : parse_file_header true tab_at attrs st = Val (Ret u st') ->
+  exists v, st' = Parser.set_version st v /\
+    forall s st2, parse_file_header s tab_at attrs st2 = Val (Ret tt (Parser.set_version st2 v)).
+Proof.
+  unfold parse_file_header, attr_id. intros H.
+  inv H as a1 s1 E1. inv E1 as r1 s1' E1'. apply lift_ret_inv in E1' as [N1 ->]. destruct r1 as [i1|]; [|discriminate E1]. injection E1 as <- <-.
+  inv H as a2 s2 E2. inv E2 as r2 s2' E2'. apply lift_ret_inv in E2' as [N2 ->]. destruct r2 as [i2|]; [|discriminate E2]. injection E2 as <- <-.
+  inv H as a3 s3 E3. inv E3 as r3 s3' E3'. apply lift_ret_inv in E3' as [N3 ->]. destruct r3 as [i3|]; [|discriminate E3]. injection E3 as <- <-.
+  destruct (attr_string i1 attrs) as [[xmlns|]|] eqn:A1; try discriminate H.
+  destruct (attr_string i2 attrs) as [[xsi|]|] eqn:A2; try discriminate H.
+  destruct (attr_string i3 attrs) as [[schema|]|] eqn:A3; try discriminate H.
+  destruct (negb (bytes_eqb xmlns (BS "http://autosar.org/schema/r4.0")) || negb (bytes_eqb xsi (BS "http://www.w3.org/2001/XMLSchema-instance"))) eqn:C;
+    [discriminate H|].
+  inv H as v s4 E4. pose proof (pfv_indep _ _ _ _ E4) as IND. rewrite (IND true st) in E4. injection E4 as <-. injection H as _ <-.
+  exists v. split; [reflexivity|]. intros s st2.
+  rewrite N1. change (mbind (mbind (lift (Val (Some i1))) ?g) ?k st2) with (k i1 st2). cbv beta.
+  rewrite N2. change (mbind (mbind (lift (Val (Some i2))) ?g) ?k st2) with (k i2 st2). cbv beta.
+  rewrite N3. change (mbind (mbind (lift (Val (Some i3))) ?g) ?k st2) with (k i3 st2). cbv beta.
+  rewrite A1, A2, A3, C. unfold mbind. rewrite (IND s st2). reflexivity.
+Qed.
+
+(* ---------- C01, first half: the strictly loaded tree is a canonical root, outside the recorded classes ---------- *)
+Theorem load_canon bs t st :
+  load true T tab_el tab_at tab_en check_fn float_parse bs = Val (Ret t st) -> knownb T t = false ->
+  forall s, RootCanon s T tab_el tab_at tab_en check_fn float_fmt float_parse (p_version st) t.
+Proof.
+  unfold load.
+  destruct (version_of_ident "Autosar_4_0_1") as [v401|] eqn:V401; [|destruct (elem T (autosar_element T)); discriminate].
+  destruct (elem T (autosar_element T)) as [e|site|] eqn:EE; try discriminate.
+  unfold parse_arxml. intros H KN s.
+  inv H as ev s1 E1. pose proof (vpres_inv _ _ _ _ vpres_pnext E1) as V1. destruct ev; try discriminate H.
+  inv H as u2 s2 E2. injection E2 as _ <-.
+  inv H as tok s3 E3. pose proof (vpres_inv _ _ _ _ vpres_pnext E3) as V3. cbn [p_version set_standalone] in V3.
+  inv H as r s4 E4. destruct r as [stored token].
+  pose proof (vpres_inv _ _ _ _ (vp_skip_comments _ _ _) E4) as V4.
+  destruct token as [|elemname attr_text| | | |]; try discriminate H.
+  inv H as nm s5 E5. apply lift_ret_inv in E5 as [NM ->].
+  inv H as an s6 E6. unfold autosar_name in E6. rewrite EE in E6. injection E6 as <- <-.
+  destruct nm as [n0|]; [|discriminate H]. destruct (n0 =? ed_name e) eqn:EQN; [|discriminate H]. apply N.eqb_eq in EQN. subst n0.
+  unfold name_of in NM. destruct (from_bytes tab_el elemname) as [i| |] eqn:FB; try discriminate NM. injection NM as ->.
+  inv H as rt s7 E7. unfold root_type, et_new in E7. rewrite EE in E7. cbn [bind lift] in E7. injection E7 as <- <-.
+  set (rt := (autosar_element T, ed_type e)) in *.
+  assert (RTOK : etype_ok T rt).
+  { destruct (root_ok T TOK) as (e' & rt' & EE' & ER & RTOK). rewrite EE in EE'. injection EE' as <-.
+    unfold et_new in ER. rewrite EE in ER. cbn in ER. injection ER as <-. exact RTOK. }
+  inv H as attributes s8 E8.
+  pose proof (pat_canon T tab_en check_fn float_fmt float_parse FLOAT UTF8C CLEAN_EN tab_at CLEAN_AT _ _ _ _ _ E8) as [FA RQ].
+  assert (V0 : p_version s4 = v401) by (rewrite V4, V3, V1; reflexivity). rewrite V0 in FA.
+  inv H as u9 s9 E9. destruct (pfh_indep _ _ _ _ E9) as (ver & -> & HDR).
+  inv H as root s10 E10. inv H as u11 s11 E11. injection H as <- <-.
+  pose proof (vpres_inv _ _ _ _ (vp_verify_end true) E11) as V11.
+  cbn [parse_element] in E10.
+  destruct (etype_mode rt RTOK) as (d & _ & CM).
+  destruct (pe_loop_canon _ (parse_element_canon (List.length bs) (S (List.length bs))) _ _ _ _ _ _ _ _ _ _ _ _ _ _ _ E10 RTOK CM ltac:(discriminate))
+    as (VF & more & named & -> & CO & NV & NAMED).
+  cbn [app p_version Parser.set_version] in *.
+  rewrite knownb_node in KN. apply orb_false_iff in KN as [KN K4]. apply orb_false_iff in KN as [KN K3].
+  apply orb_false_iff in KN as [K1 K2]. apply negb_false_iff in K3.
+  rewrite V11, VF.
+  apply (root_canon s T tab_el tab_at tab_en check_fn float_fmt float_parse ver e v401 elemname attributes more stored (dt_mode d) named).
+  - exact EE.
+  - exact V401.
+  - apply comments_okb_spec. exact K3.
+  - split; [exact (from_bytes_only_members _ _ _ FB)|]. split; [exact (CLEAN_EL _ _ FB)|exact FB].
+  - apply attrs_ok_of_canon; assumption.
+  - intros st2. apply HDR.
+  - exact CM.
+  - eapply shape_of_children; [exact RTOK|exact CM|exact (CO K4)|exact K2].
+  - exact (CO K4).
+  - exact NV.
+  - exact NAMED.
+Qed.
+
 End CanonLoad.
